@@ -523,6 +523,10 @@ class WideStore(Contract):
                     for mode in OVERFLOWS:
                         for route in ('ctor_raw', 'ctor_value', 'set_val_raw', 'call_value', 'setitem_raw', 'ctor_raw_array', 'ctor_like', 'ctor_template'):
                             yield dict(signed=signed, n_word=n, n_frac=f, mode=mode, route=route)
+                        if f == 0:
+                            # a shallow copy (shared status record) was resized to a narrow word first: the choice of the
+                            # Python-int storage must follow the word length of THIS object, not a shared indicator
+                            yield dict(signed=signed, n_word=n, n_frac=f, mode=mode, route='set_val_raw_after_copy_resize')
             if n == 64:      # an inferred word never exceeds the configured maximum (64)
                 for signed in (True, False):
                     yield dict(signed=signed, n_word=n, n_frac=None, mode='saturate', route='nfrac_omitted')
@@ -559,7 +563,10 @@ class WideStore(Contract):
         else:
             shape = (2,) if route == 'setitem_raw' else ()
             x = make_fxp(P, s, n, f, codes=[0] * nelem(shape), shape=shape, cfg={'overflow': mode}, status=inp['st'], vdtype=float)
-            if route == 'set_val_raw':
+            if route == 'set_val_raw_after_copy_resize':
+                w = x.copy(); w.resize(n_word=16)
+                x.set_val(c, raw=True)
+            elif route == 'set_val_raw':
                 x.set_val(c, raw=True)
             elif route == 'call_value':
                 x(c)
@@ -576,7 +583,7 @@ class WideStore(Contract):
         if route == 'nfrac_omitted':
             return {'extended_prec': st['extended_prec'] == (n >= 64), 'word': obs['n_word'] == n}
         c = M(inp['c'])
-        R = c if route in ('ctor_raw', 'set_val_raw', 'setitem_raw', 'ctor_raw_array', 'ctor_like', 'ctor_template') else scale2(c, f)
+        R = c if route in ('ctor_raw', 'set_val_raw', 'setitem_raw', 'ctor_raw_array', 'ctor_like', 'ctor_template', 'set_val_raw_after_copy_resize') else scale2(c, f)
         codes = [M(v) for v in elems(obs['val'])]
         z = codes[-1]
         fresh = route in ('ctor_raw', 'ctor_value', 'ctor_like', 'ctor_template', 'ctor_raw_array')
@@ -595,6 +602,10 @@ class WideStore(Contract):
                'format': And(obs['n_word'] == n, obs['n_frac'] == f, obs['dtype'] == fmt_str(s, n, f))}
         if route == 'setitem_raw':
             out['other_unchanged'] = eq(codes[0], 0)
+        if route == 'set_val_raw_after_copy_resize':
+            # the shallow copy shares the status record, so its resize() rewrote the indicator and the flags there: only codes and storage are claimed
+            for k in ('extended_prec', 'flag_overflow', 'flag_underflow'):
+                out.pop(k)
         out.update(extra)
         return out
 
